@@ -25,6 +25,8 @@ def value(rnd, style):
         return rnd.randint(0, 8) / 8.0
     if style == 'negative':
         return -rnd.randint(1, 40) / 4.0
+    if style == 'huge':   # utilities beyond 2^63 / 1e8 (integer grids overflow), still far from the float range
+        return rnd.choice([1, 1, -1]) * rnd.choice([1.3e11, 2.5e12, 9.9e10, 4.0e13, 7.7e15]) + rnd.choice([0.0, 1.0, 1024.0])
     if style == 'large':  # big magnitudes that differ by far more than any absolute tolerance, yet by a tiny fraction of themselves
         base = rnd.choice([1.0e6, 5.0e6, 412000.0, 3.0e7]) * rnd.choice([1, 1, 1, -1])
         return base + rnd.choice([0, 0, 0.75, 1.0, 2.0, -1.0, 0.001, 37.0, 2.0e-6])
@@ -32,7 +34,7 @@ def value(rnd, style):
 
 
 def pick_style(rnd):
-    return rnd.choices(['grid', 'posgrid', 'near', 'real', 'unit', 'negative', 'large'], [30, 17, 17, 13, 8, 9, 6])[0]
+    return rnd.choices(['grid', 'posgrid', 'near', 'real', 'unit', 'negative', 'large', 'huge'], [30, 17, 17, 13, 8, 9, 6, 3])[0]
 
 
 def gen_alternatives(rnd, crit_ids, n=None, style=None, extra_value_prob=0.0):
@@ -68,7 +70,10 @@ def gen_criteria(rnd, n=None, cost_ok=True, range_prob=0.3):
         t = 'gain'
         if cost_ok and rnd.random() < 0.35:
             t = 'cost'
-        crits.append({'id': c, 'type': t})
+        if t == 'gain' and rnd.random() < 0.15:
+            crits.append({'id': c})          # the type left out: gain is the documented default
+        else:
+            crits.append({'id': c, 'type': t})
     return crits
 
 
@@ -142,6 +147,9 @@ def utility_request(rnd, method=None, n_alts=None, n_crits=None, style=None):
     crits = gen_criteria(rnd, n=n_crits, cost_ok=(method != 'choquetIntegral'))
     if method == 'choquetIntegral' and len(crits) > 4:
         crits = crits[:4]
+    if method == 'choquetIntegral' and rnd.random() < 0.9:
+        for c in crits:   # Choquet accepts only criteria typed "gain" literally (a criterion without a type is rejected: kept for a tenth of the requests)
+            c['type'] = 'gain'
     cids = [c['id'] for c in crits]
     # now and then a large instance (thresholds inside the code: sort algorithms, batching, pre-sized buffers)
     big = n_alts is None and rnd.random() < 0.06
@@ -162,9 +170,15 @@ def ranking_items(rnd):
     lower values, all-equal, values that coincide only after rounding to 1e-8"""
     n = rnd.choice([1, 2, 3, 4, 5, 6, 7, 8])
     ids = rnd.sample(ALT_IDS, n)
-    kind = rnd.choice(['runs', 'runs', 'allequal', 'round', 'distinct', 'mixed'])
+    kind = rnd.choice(['runs', 'runs', 'allequal', 'round', 'distinct', 'mixed', 'scales'])
     vals = []
-    if kind == 'allequal':
+    if kind == 'scales':
+        # every order of magnitude a utility can take (money in cents, populations, 1e-8 steps no longer representable ...), both signs, with ties
+        vals = [rnd.choice([1, 1, -1]) * rnd.choice([1.0, 2.5, 9.3]) * 10.0 ** rnd.choice([-9, -3, 0, 4, 7, 9, 10, 11, 12, 13, 15, 17, 20])
+                for _ in range(n)]
+        if n > 2 and rnd.random() < 0.5:
+            vals[1] = vals[0]
+    elif kind == 'allequal':
         v = grid_value(rnd)
         vals = [v] * n
     elif kind == 'distinct':
@@ -254,6 +268,8 @@ def level_params(rnd, crits, alts, increasing, explicit_prob=0.35):
             if rnd.random() < 0.1:
                 t['undeclared'] = 1.0
             ths.append(t)
+            if rnd.random() < 0.2:   # the same level once more (level indices count every listed level)
+                ths.append(dict(t))
         return 'thresholds', {'thresholds': ths}
     dyadic = rnd.random() < 0.5
     if dyadic:
@@ -497,6 +513,14 @@ def add_biases(rnd, req, names=None, length=None, prob_mix=True, disabled_prob=0
 
 def biased_request(rnd, method=None, names=None, length=None, prob_mix=True):
     req = any_request(rnd, method)
+    if rnd.random() < 0.1 and req['criteria']:
+        # a criterion on which all known alternatives agree and that declares no range: its observed range has width zero
+        c = rnd.choice(req['criteria'])
+        c.pop('valuesRange', None)
+        v = rnd.choice([2.0, 0.0, -1.5, 7.25])
+        for a in req['knownAlternatives']:
+            if c['id'] in a['criteria']:
+                a['criteria'][c['id']] = v
     return add_biases(rnd, req, names=names, length=length, prob_mix=prob_mix)
 
 
